@@ -11,14 +11,15 @@ META = {
              "floor/ceiling/truncate/round return the exact integer of the real value of the double, through the code's own compositions "
              "(floor_exact, ceiling_exact, truncate_exact, round_exact, float_to_int_eval); + - * / sqrt and integer->float promotion return "
              "the round-to-nearest-even double of the exact real result, or float_overflow exactly when that does not fit "
-             "(add/sub/mul/div/sqrt_correctly_rounded, int_to_float_nearest, from Flocq's B*_correct). The model is tied to the code by "
+             "(add/sub/mul/div/sqrt_correctly_rounded, int_to_float_nearest, from Flocq's B*_correct; rat_to_float_partial for rationals). The model is tied to the code by "
              "evaluating it in Coq on boundary-biased expressions (depth <= 3, every float-valued functor, integers and rationals up to 2^1100 "
              "mixed with floats) and comparing IEEE bits / error formals with `X is E` on the implementation, compiled and meta-called."),
     "note": ("Trusted: Coq kernel + vm_compute; Flocq 4.1 (its theorems use the standard Reals axioms ClassicalDedekindReals.sig_forall_dec, "
              "ClassicalDedekindReals.sig_not_dec, FunctionalExtensionality.functional_extensionality_dep, Classical_Prop.classic, and so do the "
              "model's definitions because Flocq's operations carry proof terms). Rust f64 + - * / sqrt floor trunc round, `as f64`, "
              "dashu IBig::to_f64 / RBig::to_f64 are modelled (IEEE nearest-even / correctly rounded), not verified; rational->double is "
-             "modelled as the correctly rounded quotient (round-to-odd quotient + binary_normalize) without a Coq proof of that function. "
+             "modelled as a >= 64-bit quotient with a sticky bit handed to Flocq's rounding: rat_to_float_partial proves the quotient bounds and "
+             "that the result is the nearest-even double of that round-to-odd value, the last step (same double as rounding n/d) is not proved. "
              "Transcendentals (exp log sin cos tan asin acos atan atan2, powf behind ** and ^) are NOT modelled by value: the model takes the "
              "library result as an input and only classifies it (finite -> value, infinite -> float_overflow, NaN -> undefined); in the "
              "correspondence that input is glibc's libm.so.6 (the shared object the harness links) called through ctypes, so for these "
@@ -26,7 +27,8 @@ META = {
              "negative number is fixed by the model (IEEE: -inf / NaN) rather than asked of the oracle. The sign of zero is not observed "
              "(-0.0 = 0.0 in comparisons and oracle keys; atan2(+-0, negative) is excluded from generation because the implementation does "
              "not keep the sign of a zero reliably). float_fractional_part is proved only to be the IEEE difference f - trunc f "
-             "(float_fractional_part_partial: exactness of that difference not proved). Python mirror + generator, harness vrun."),
+             "(float_fractional_part_partial: exactness of that difference not proved). A fresh-machine probe checks that the sign of zero does not depend on history (it does: known finding). "
+             "Python mirror + generator, harness vrun."),
     "technique": "Coq proof (float_result_finite, undefined-operation table, floor/ceiling/truncate/round_exact, *_correctly_rounded via Flocq) over a reference model + differential correspondence evaluated in Coq",
     "design_ref": "DESIGN.md section 8, C02",
     "coq_targets": ["C02/Props.vo"],
